@@ -6,6 +6,7 @@ import JominiModel.Proofs.Buffer
 import JominiModel.Spec.BinReader
 import JominiModel.Proofs.BinReader
 import JominiModel.Proofs.BinReaderBytes
+import JominiModel.Proofs.BinReaderPolicy
 import JominiModel.Generated.Tables
 /-
 C08 — Streaming binary reader equals the slice lexer; token encoding round-trips.
@@ -321,5 +322,98 @@ theorem C08_trailing_byte_is_error (toks : List Token) (hwf : ∀ t ∈ toks, Wf
   rw [a3]; simp
 
 example : lexAll [0x03, 0, 0x04, 0, 0xff] = ([.open, .close], .err .eof, [0xff]) := by rfl
+
+/-- **Stream = lexer for EVERY buffer policy.**  `AReader P` (Model/BinReaderPolicy.lean) is the
+reader over an abstract buffer — window contents, position, capacity — whose management is left
+to a policy `P`: at each fill `P` decides how many bytes to ask the `Read` for (i.e. whether it
+compacts first), keeping a private state.  For every `P` meeting `Policy.Contract` (its own
+invariant is kept; whenever the window is shorter than the capacity it finds room and requests
+at least one byte that fits behind the window), every capacity `≥ 1`, every input and every
+well-formed schedule:
+* fault-free and everything fits: the streamed tokens, the terminal outcome and the final
+  position are those of the slice lexer;
+* fault-free and some token does not fit: `BufferFull`, after a prefix of the lexer's tokens;
+  hence `BufferFull` **iff** a token exceeds the capacity;
+* with faults (and everything fits), for any number of calls: the returned tokens are a prefix of
+  the lexer's, a clean end / lexer error only as the lexer's own outcome after all of them,
+  otherwise the I/O error; never `BufferFull`; position ≤ bytes delivered.
+None of this depends on how much each fill requests or on when the window is moved. -/
+theorem C08_stream_eq_lexer_any_policy (P : Policy) (cap : Nat) (data : Bytes) (sched : List Step)
+    (hP : P.Contract cap) (hcap : 1 ≤ cap) (hwf : Src.WfSched sched) :
+    (Src.NoFaults sched → Fits cap data →
+      (AReader.streamAll (AReader.new P cap (Src.new data sched))).1 = (lexAll data).1 ∧
+      (AReader.streamAll (AReader.new P cap (Src.new data sched))).2.1 = embed (lexAll data).2.1 ∧
+      (AReader.streamAll (AReader.new P cap (Src.new data sched))).2.2.position
+        = data.length - (lexAll data).2.2.length) ∧
+    (Src.NoFaults sched → ¬ Fits cap data →
+      (AReader.streamAll (AReader.new P cap (Src.new data sched))).2.1 = .err .bufferFull ∧
+      (AReader.streamAll (AReader.new P cap (Src.new data sched))).1 <+: (lexAll data).1) ∧
+    (Src.NoFaults sched →
+      ((AReader.streamAll (AReader.new P cap (Src.new data sched))).2.1 = .err .bufferFull ↔ ¬ Fits cap data)) ∧
+    (Fits cap data → ∀ n,
+      callToks (AReader.calls n (AReader.new P cap (Src.new data sched))).1 <+: (lexAll data).1 ∧
+      (Call.done ∈ (AReader.calls n (AReader.new P cap (Src.new data sched))).1 →
+        callToks (AReader.calls n (AReader.new P cap (Src.new data sched))).1 = (lexAll data).1 ∧
+        (lexAll data).2.1 = .done) ∧
+      (∀ e, Call.err (.lexer e) ∈ (AReader.calls n (AReader.new P cap (Src.new data sched))).1 →
+        callToks (AReader.calls n (AReader.new P cap (Src.new data sched))).1 = (lexAll data).1 ∧
+        (lexAll data).2.1 = .err e) ∧
+      (Call.err .bufferFull ∉ (AReader.calls n (AReader.new P cap (Src.new data sched))).1 ∧
+       Call.err .ub ∉ (AReader.calls n (AReader.new P cap (Src.new data sched))).1 ∧
+       Call.err .fuel ∉ (AReader.calls n (AReader.new P cap (Src.new data sched))).1) ∧
+      (AReader.calls n (AReader.new P cap (Src.new data sched))).2.position ≤
+        (AReader.calls n (AReader.new P cap (Src.new data sched))).2.src.delivered) := by
+  refine ⟨fun hnf hfit => (astreamAll_any P cap data sched hP hcap hwf hnf).1 hfit,
+    fun hnf hn => (astreamAll_any P cap data sched hP hcap hwf hnf).2 hn, fun hnf => ⟨fun hb hfit => ?_, fun hn => ?_⟩,
+    fun hfit n => acalls_any P cap data sched hP hcap hwf hfit n⟩
+  · have := ((astreamAll_any P cap data sched hP hcap hwf hnf).1 hfit).2.1
+    rw [this] at hb
+    generalize (lexAll data).2.1 = tm at hb
+    cases tm <;> simp [embed] at hb
+  · exact ((astreamAll_any P cap data sched hP hcap hwf hnf).2 hn).1
+
+/-- **The eager policy of buffer.rs is an instance**, and the concrete model the correspondence
+runs on refines the abstract reader under it: `Reader.build buffer src` and
+`AReader.new eagerPolicy buffer.length src` produce the same whole-stream run (tokens, terminal
+outcome, final position) and the same call logs, for every input and well-formed schedule
+(faults included), whether or not the tokens fit. -/
+theorem C08_eager_policy_ok (cap : Nat) :
+    eagerPolicy.Contract cap ∧
+    (∀ (buffer data : Bytes) (sched : List Step), 0 < buffer.length → Src.WfSched sched →
+      ((Reader.streamAll (Reader.build buffer (Src.new data sched))).1 =
+          (AReader.streamAll (AReader.new eagerPolicy buffer.length (Src.new data sched))).1 ∧
+       (Reader.streamAll (Reader.build buffer (Src.new data sched))).2.1 =
+          (AReader.streamAll (AReader.new eagerPolicy buffer.length (Src.new data sched))).2.1 ∧
+       (Reader.streamAll (Reader.build buffer (Src.new data sched))).2.2.position =
+          (AReader.streamAll (AReader.new eagerPolicy buffer.length (Src.new data sched))).2.2.position) ∧
+      (∀ n, (Reader.calls n (Reader.build buffer (Src.new data sched))).1 =
+          (AReader.calls n (AReader.new eagerPolicy buffer.length (Src.new data sched))).1)) :=
+  ⟨eagerPolicy_contract cap, fun buffer data sched hc hwf => eager_refines buffer data sched hc hwf⟩
+
+/-- **The lazy compaction of `seeded-harmless-r3/R2_buffer_lazy_compaction.diff` is an instance**:
+with the offset of the window inside the allocation as private state, it appends behind the
+window while there is room and moves the window to the front only when it is empty or touches
+the end of the allocation; it meets the contract, so every clause of
+`C08_stream_eq_lexer_any_policy` holds for it (stated here for the fault-free stream). -/
+theorem C08_lazy_policy_ok (cap : Nat) (hcap : 1 ≤ cap) (data : Bytes) (sched : List Step)
+    (hwf : Src.WfSched sched) (hnf : Src.NoFaults sched) :
+    lazyPolicy.Contract cap ∧
+    (Fits cap data →
+      (AReader.streamAll (AReader.new lazyPolicy cap (Src.new data sched))).1 = (lexAll data).1 ∧
+      (AReader.streamAll (AReader.new lazyPolicy cap (Src.new data sched))).2.1 = embed (lexAll data).2.1) ∧
+    ((AReader.streamAll (AReader.new lazyPolicy cap (Src.new data sched))).2.1 = .err .bufferFull ↔
+      ¬ Fits cap data) := by
+  have h := C08_stream_eq_lexer_any_policy lazyPolicy cap data sched (lazyPolicy_contract cap) hcap hwf
+  exact ⟨lazyPolicy_contract cap, fun hfit => ⟨(h.1 hnf hfit).1, (h.1 hnf hfit).2.1⟩, h.2.2.1 hnf⟩
+
+/-- the two policies really differ in what they ask the `Read` for (so `delivered` and the read
+call a fault falls on differ) while the token stream is the same -/
+example :
+    let d : Bytes := [0x0c, 0, 1, 0, 0, 0, 0x0e, 0, 1]
+    let s : List Step := [.give 7]
+    (AReader.streamAll (AReader.new lazyPolicy 8 (Src.new d s))).1
+      = (AReader.streamAll (AReader.new eagerPolicy 8 (Src.new d s))).1 ∧
+    (AReader.streamAll (AReader.new lazyPolicy 8 (Src.new d s))).1 = [.i32 1, .bool true] := by
+  constructor <;> rfl
 
 end Jomini.Props.C08
